@@ -536,7 +536,7 @@ class Inliner:
         if callee.name in stack or callee.args.vararg or callee.args.kwarg or _contains(callee, (ast.Yield, ast.YieldFrom, ast.Await)):
             return None
         body = real_body(callee)
-        if not body or not isinstance(body[-1], ast.Return) or body[-1].value is None:
+        if not body:
             return None
         b = norm.bind_call(callee, call, skip)
         if b is None:
@@ -546,6 +546,16 @@ class Inliner:
             selfname = (callee.args.posonlyargs + callee.args.args)[0].arg
             if not (isinstance(call.func.value, ast.Name) and call.func.value.id == selfname):
                 env[selfname] = copy.deepcopy(call.func.value)
+        if not isinstance(body[-1], ast.Return) or body[-1].value is None or any(isinstance(x, (ast.If, ast.Raise)) for x in body[:-1]):
+            # branching / refusing helpers: a conditional expression, with raise_(exc) standing for a raising branch
+            val = self._body_expr(list(body), env, 0)
+            if val is None or not any(isinstance(n, ast.Call) and isinstance(n.func, ast.Name) and n.func.id == "raise_" for n in ast.walk(val)):
+                return None
+            val = self.inline_exprs(val, d - 1, stack + (callee.name,))
+            for n in ast.walk(val):
+                if hasattr(n, "lineno"):
+                    n.lineno = call.lineno
+            return val
         for st in body[:-1]:
             if isinstance(st, ast.Expr) and isinstance(st.value, ast.Constant):
                 continue
@@ -572,6 +582,37 @@ class Inliner:
             if hasattr(n, "lineno"):
                 n.lineno = call.lineno
         return val
+
+    def _body_expr(self, stmts, env, depth):
+        """value of a helper body as an expression: assignments are substituted, if/else becomes a conditional expression,
+        `raise X` becomes raise_(X); None when something else (loops, effects) is met"""
+        if depth > 6:
+            return None
+        env = dict(env)
+        for i, st in enumerate(stmts):
+            if isinstance(st, ast.Expr) and isinstance(st.value, ast.Constant):
+                continue
+            if isinstance(st, ast.Pass):
+                continue
+            if isinstance(st, (ast.Assign, ast.AnnAssign)) and st.value is not None:
+                tg = st.targets[0] if isinstance(st, ast.Assign) and len(st.targets) == 1 else (st.target if isinstance(st, ast.AnnAssign) else None)
+                if not isinstance(tg, ast.Name) or not norm.is_pure(st.value, _PURE_EXT):
+                    return None
+                env[tg.id] = norm._Subst(dict(env)).visit(copy.deepcopy(st.value))
+                continue
+            if isinstance(st, ast.Return):
+                return norm._Subst(dict(env)).visit(copy.deepcopy(st.value)) if st.value is not None else ast.Constant(None)
+            if isinstance(st, ast.Raise) and st.exc is not None:
+                return ast.Call(func=ast.Name(id="raise_", ctx=ast.Load()), args=[norm._Subst(dict(env)).visit(copy.deepcopy(st.exc))], keywords=[])
+            if isinstance(st, ast.If):
+                rest = stmts[i + 1:]
+                a = self._body_expr(list(st.body) + rest, env, depth + 1)
+                b_ = self._body_expr(list(st.orelse) + rest, env, depth + 1)
+                if a is None or b_ is None:
+                    return None
+                return ast.IfExp(test=norm._Subst(dict(env)).visit(copy.deepcopy(st.test)), body=a, orelse=b_)
+            return None
+        return ast.Constant(None)
 
     def inline_exprs(self, node, d, stack):
         me = self
